@@ -609,6 +609,45 @@ impl rustc_driver::Callbacks for Cb {
                 esc(&span_str(tcx, item.span))
             );
             lit_tree2(tcx, item.owner_id.def_id, tcx.hir_body(body).value, &mut out);
+            // second reading for arrays of primitive integers: the const-evaluated value (the compiler's own evaluation of the initialiser,
+            // so that `[u32::from_le_bytes(*b"Mong")]` and `[1735290701]` are the same fact)
+            let tys = ty_str(tcx.type_of(did).instantiate_identity().skip_norm_wip());
+            let esz: usize = if tys.starts_with("[u8;") || tys.starts_with("[i8;") { 1 }
+                else if tys.starts_with("[u16;") || tys.starts_with("[i16;") { 2 }
+                else if tys.starts_with("[u32;") || tys.starts_with("[i32;") { 4 }
+                else if tys.starts_with("[u64;") || tys.starts_with("[i64;") || tys.starts_with("[usize;") { 8 }
+                else if tys.starts_with("[u128;") { 16 } else { 0 };
+            if esz > 0 {
+                let mut bytes: Option<Vec<u8>> = None;
+                if matches!(tcx.def_kind(did), DefKind::Static { .. }) {
+                    if let Ok(a) = tcx.eval_static_initializer(did) {
+                        let a = a.inner();
+                        bytes = Some(a.inspect_with_uninit_and_ptr_outside_interpreter(0..a.len()).to_vec());
+                    }
+                } else if let Ok(v) = tcx.const_eval_poly(did) {
+                    if let ConstValue::Indirect { alloc_id, offset } = v {
+                        if let mir::interpret::GlobalAlloc::Memory(a) = tcx.global_alloc(alloc_id) {
+                            let a = a.inner();
+                            let off = offset.bytes() as usize;
+                            if off <= a.len() {
+                                bytes = Some(a.inspect_with_uninit_and_ptr_outside_interpreter(off..a.len()).to_vec());
+                            }
+                        }
+                    }
+                }
+                if let Some(b) = bytes {
+                    if b.len() % esz == 0 && b.len() / esz <= 100000 {
+                        out.push_str(",\"ev\":[");
+                        for (i, ch) in b.chunks(esz).enumerate() {
+                            if i > 0 { out.push(','); }
+                            let mut n: u128 = 0;
+                            for (k, x) in ch.iter().enumerate() { n |= (*x as u128) << (8 * k); }
+                            let _ = write!(out, "\"{}\"", n);
+                        }
+                        out.push(']');
+                    }
+                }
+            }
             out.push('}');
         }
         out.push_str("},\"adts\":{");
